@@ -105,7 +105,7 @@ Definition run_dop (dv : dvariants) (a : obj Q) (op : dop) : res (obj Q) :=
   | DReal => oreal_space dv a
   | DComplex => ocomplex_space dv a
   | DGetitem i => ogetitem dv a i
-  | DByaxis i => match a with OTensor t => rmap OTensor (tsp_byaxis t i) | _ => ErrType end
+  | DByaxis i => match a with OTensor t => rmap OTensor (tsp_byaxis dv t i) | _ => ErrType end
   end.
 
 Record caseD := { d_dv : dvariants; d_a : obj Q; d_op : dop; d_out : res (obj Q) }.
